@@ -466,6 +466,30 @@ def _m_modf(interp, x):
 BUILTIN_MODELS[_math.modf] = _m_modf
 
 
+def _float_classifier(name, of_finite):
+    """math.isnan / isinf / isfinite: the argument is first converted to a C double -- an integer of magnitude
+    2**1024 or more raises OverflowError (CPython), every other integer is finite."""
+    real = getattr(_math, name)
+
+    def m(interp, v):
+        if isinstance(v, SBool):
+            return of_finite
+        if isinstance(v, SInt):
+            big = z3.Or(v.t >= z3.IntVal(2 ** 1024), v.t <= z3.IntVal(-(2 ** 1024)))
+            if interp.ctx.branch(big):
+                raise OverflowError("int too large to convert to float")
+            return of_finite
+        if isinstance(v, Sym):
+            raise Unsupported("math.%s of %r" % (name, v))
+        return real(v)
+    BUILTIN_MODELS[real] = m
+
+
+_float_classifier('isnan', False)
+_float_classifier('isinf', False)
+_float_classifier('isfinite', True)
+
+
 import warnings as _warnings
 
 
